@@ -6,6 +6,7 @@ import (
 	"runtime"
 	"runtime/debug"
 	"strings"
+	"sync"
 	"testing"
 
 	logging "github.com/mdzio/go-logging"
@@ -23,6 +24,12 @@ var (
 
 func TestMain(m *testing.M) {
 	logging.SetLevel(logging.OffLevel)
+	if v := os.Getenv("VERIF_LOG"); v != "" {
+		logging.SetLevel(logging.TraceLevel)
+		if v == "mem" {
+			logging.SetWriter(&memLog)
+		}
+	}
 	baseSeed = out.EnvU64("VERIF_SEED", 1)
 	tier = out.EnvStr("VERIF_TIER", "quick")
 	batch = out.EnvInt("VERIF_BATCH", 0)
@@ -33,6 +40,33 @@ func TestMain(m *testing.M) {
 		out.Done()
 	}
 	os.Exit(code)
+}
+
+type memLogT struct {
+	mu sync.Mutex
+	b  []byte
+}
+
+func (m *memLogT) Write(p []byte) (int, error) {
+	m.mu.Lock()
+	m.b = append(m.b, p...)
+	m.mu.Unlock()
+	return len(p), nil
+}
+
+var memLog memLogT
+
+func dumpMemLog() {
+	if os.Getenv("VERIF_LOG") == "" {
+		return
+	}
+	for _, g := range libGoroutines() {
+		os.Stderr.WriteString(g.stack + "\n\n")
+	}
+	memLog.mu.Lock()
+	os.Stderr.Write(memLog.b)
+	memLog.b = nil
+	memLog.mu.Unlock()
 }
 
 func thorough() bool { return tier == "thorough" }
